@@ -28,6 +28,9 @@ func checkC11(r *Run) propMeta {
 	checkGenericProtocol(r)
 	checkParallelLists(r, r.MustPkg("cypher/models/walk"))
 	checkReceiverCopies(r, r.MustPkg("graph"))
+	checkOptionalListBreak(r, "C11-walk-optional-break", r.MustPkg("cypher/models/walk"))
+	checkSelfAppendClone(r, "C11-copy-self-append", r.MustPkg("cypher/models/cypher"), r.MustPkg("cypher/models/pgsql"), r.MustPkg("graph"))
+	checkCopySliceDepth(r, "C11-copy-slice-deep", r.MustPkg("cypher/models/cypher"))
 	return meta
 }
 
@@ -315,8 +318,25 @@ func checkCopyMethod(r *Run, cp *packages.Package, n *types.Named, fd *ast.FuncD
 						if call, ok := ast.Unparen(kv.Value).(*ast.CallExpr); ok {
 							if ist, ok := fv.Type().Underlying().(*types.Struct); ok {
 								if fn := calleeOf(info, call); fn != nil && fn.Pkg() == cp.Types {
-									if hd := FuncDecls(cp)[declKeyOf(fn)]; hd != nil && hd.Body != nil && len(hd.Body.List) == 1 {
-										if rs, ok := hd.Body.List[0].(*ast.ReturnStmt); ok && len(rs.Results) == 1 {
+									// (guard clauses that hand back the zero value for a nil or empty receiver may stand in front of it)
+									if hd := FuncDecls(cp)[declKeyOf(fn)]; hd != nil && hd.Body != nil && len(hd.Body.List) >= 1 {
+										zeroGuardsOnly := true
+										for _, st := range hd.Body.List[:len(hd.Body.List)-1] {
+											ifs, isIf := st.(*ast.IfStmt)
+											if !isIf || ifs.Else != nil || len(ifs.Body.List) != 1 {
+												zeroGuardsOnly = false
+												continue
+											}
+											grs, isRet := ifs.Body.List[0].(*ast.ReturnStmt)
+											if !isRet || len(grs.Results) != 1 {
+												zeroGuardsOnly = false
+												continue
+											}
+											if zl, isLit := ast.Unparen(grs.Results[0]).(*ast.CompositeLit); !isLit || len(zl.Elts) != 0 {
+												zeroGuardsOnly = false
+											}
+										}
+										if rs, ok := hd.Body.List[len(hd.Body.List)-1].(*ast.ReturnStmt); ok && len(rs.Results) == 1 && zeroGuardsOnly {
 											if inner, ok := ast.Unparen(rs.Results[0]).(*ast.CompositeLit); ok {
 												collectLit(inner, ist)
 											}
